@@ -287,6 +287,24 @@ impl StreamingLoop {
                 }
             };
 
+            // The leader and the trailer must belong to the same block, otherwise the transfers
+            // of two frames got mixed up (e.g. the device dropped packets).
+            if trailer.block_id() != leader.block_id() {
+                let err = StreamError::InvalidPayload(
+                    format!(
+                        "block id of the trailer ({}) differs from the one of the leader ({})",
+                        trailer.block_id(),
+                        leader.block_id()
+                    )
+                    .into(),
+                );
+                warn!(?err);
+                // Reuse `payload_buf`.
+                payload_buf_opt = Some(payload_buf);
+                self.sender.try_send(Err(err)).ok();
+                continue;
+            }
+
             let builder_result = PayloadBuilder {
                 leader,
                 payload_buf,
